@@ -25,7 +25,7 @@ CHECKS = {
     ),
     "C13": (
         "exploration",
-        "reference-model monitor with independent astrometry (ICRS/GCRS->ITRS directions dotted with the geodetic normal, topocentric Sun/Moon, phase angle from vectors, coarse GMST formula) and guard bands; explicit ray-sphere triangle; per-instant and monotonicity monitors on the dark-sky cut; channel application through the real mcintegral at trigger thresholds 10, 0 and -1; instant-grid sweep over every N",
+        "reference-model monitor with independent astrometry (ICRS/GCRS->ITRS directions dotted with the geodetic normal, topocentric Sun/Moon, phase angle from vectors, coarse GMST formula) and guard bands; explicit ray-sphere triangle; per-instant and monotonicity monitors on the dark-sky cut; channel application through the real mcintegral at trigger thresholds 10, 0 and -1; instant-grid sweep over every N, with Python and numpy integer counts",
         "Observed executions over 96..480 seeded target configurations (sources on the sphere incl. poles, dates 2020-2026, T 10 s..30 d, N 1..2000 incl. 49 and 103 for the full monitors and every N in 1..1500 (12000 thorough) x 7 durations for the instant grid, detector incl. poles and longitudes in any convention (-2pi..2pi), cut thresholds default / always / never / exactly 0 / random): every instant judged outside the guard bands; numbers judged are in the evidence.",
         "Trusted: astropy's transformations, ephemerides and IERS tables. Guard bands 1e-3 deg (source), 0.01 deg (Sun, Moon), 1e-6 deg (phase): instants inside are not judged.",
         "5 (C13)",
@@ -41,14 +41,14 @@ CHECKS = {
         "exploration",
         "field-by-field round-trip monitor over the pydantic model tree, independent unit route (Quantity(value, unit_object).to(canonical)), validation monitors for bands and months, CLI driven through click's CliRunner",
         "500..12000 seeded configurations (all spectrum/cloud variants, 21 hostile strings, floats over 17 decades incl. -0.0, denormals, max double, +-inf cloud altitude), 15 unit-bearing fields x spellings x values x {string, Quantity}, incompatible units, bare numbers, 14 band specifications x 3 routes, 132 month spellings, 13 CLI invocations.",
-        "Trusted: tomllib/tomli_w, astropy.units. Optional sub-models set to None are not generated. Angle magnitudes kept where the degree value neither overflows nor is denormal.",
+        "Trusted: tomllib/tomli_w, astropy.units. Optional sections set to None are generated; create_toml cannot write them (KNOWN-FINDING toml:none-section, accepted only for that TypeError). Angle magnitudes kept where the degree value neither overflows nor is denormal.",
         "5 (C15)",
     ),
     "C16": (
         "exploration",
-        "round-trip monitor on real Table.write/read of results tables (synthetic on results_table.init and from real runs), header completeness incl. values, reconstruction compared on the fields config_from_fits is observed to fill; numpy scalars left in the configuration, runs without surviving trajectories, the command-line path incl. -w compared with an in-process compute(); mechanism-keyed classifier for the open header-float finding",
+        "round-trip monitor on real Table.write/read of results tables (synthetic on results_table.init and from real runs), header completeness incl. values, reconstruction compared on the fields config_from_fits is observed to fill; numpy scalars left in the configuration, runs without surviving trajectories, the command-line path incl. -w compared with an in-process compute(); configurations without an ionosphere block; hostile ASCII strings (quote/slash pairs, trailing ampersands, single-card and CONTINUE-card lengths); mechanism-keyed classifiers for the two open header findings (float text, string card grammar)",
         "120..2000 synthetic tables (all stored dtypes incl. Time and 2-D fields; one third with 17-digit floats, two thirds with short-text floats that must be exact; reused configuration objects) plus 4..24 tables from real runs; every column, header value, configuration entry and reconstructed field compared.",
-        "Trusted: astropy.io.fits. Float header differences are accepted only as KNOWN-FINDING fits-header:float-text-exceeds-card and only when the card-cutting rule predicts the exact read-back value (or a write failure cut inside the exponent).",
+        "Trusted: astropy.io.fits. Float header differences are accepted only as KNOWN-FINDING fits-header:float-text-exceeds-card and only when the card-cutting rule predicts the exact read-back value (or a write failure cut inside the exponent). String differences are accepted only as KNOWN-FINDING fits-header:string-card-grammar: the value contains a quote followed by blanks and a slash (single-card values: read-back equals the predicted cut) or needs CONTINUE cards and ends with '&'.",
         "5 (C16)",
     ),
     "C17": (
@@ -61,27 +61,27 @@ CHECKS = {
     "C20": (
         "exploration",
         "two-run relations on the real EASRadio + calculate_snr (identically seeded), finiteness/range monitors on events from the real upstream stages with hostile decay numbers, exhaustive enumeration of all 13 695 aligned bands against an independent evaluation of the parametrisation, SNR re-derived from the formulas",
-        "5 detector altitudes (ionosphere branch at 90 km) x band/TEC variants x 300..2500 events incl. lenDec in {0, 1e-17, ...}, decays at closest approach, altDec in {0, 10, 10+ulp} and degenerate out-of-range decays (at the detector altitude, +-inf, below ground on a grazing track); energy factors, antenna counts, permutations incl. a 20000..70001-event batch; every band enumerated.",
-        "Trusted: numpy, the shipped parameter tables. Antenna gain positive.",
+        "5 detector altitudes (ionosphere branch at 90 km) x band/TEC variants x 300..2500 events incl. lenDec in {0, 1e-17, ...}, decays at closest approach, altDec in {0, 10, 10+ulp} and degenerate out-of-range decays (at the detector altitude, +-inf, below ground on a grazing track); energy factors, antenna counts, permutations incl. a 20000..70001-event batch; every band enumerated; detectors inside the decay range (5, 8 km). A decay at exactly the detector's altitude gives inf/NaN (KNOWN-FINDING radio:decay-at-detector-altitude, fixed witness).",
+        "Trusted: numpy, the shipped parameter tables (read from the file, not from the object under test). Antenna gain positive.",
         "5 (C20)",
     ),
     "C01": (
         "exploration",
-        "runtime oracle on the real throw/mcintegral: finite-difference 4x4 Jacobian of explicit 3-D vectors (importance identity), one-hot observation of the weight mcintegral applies, scrambled-Sobol quadrature (truncated and full) against an independently integrated aperture; one node array shared across a scan of configurations; header RMCINTGO/OMCINTGO of full two-channel runs against the aperture; configurations built through the validating constructor, oracles fed the requested numbers",
+        "runtime oracle on the real throw/mcintegral: finite-difference 4x4 Jacobian of explicit 3-D vectors (importance identity), one-hot observation of the weight mcintegral applies, scrambled-Sobol quadrature (truncated and full) against an independently integrated aperture; one node array shared across a scan of configurations; header RMCINTGO/OMCINTGO of full two-channel runs against the aperture; configurations built through the validating constructor, oracles fed the requested numbers; the u4 faces of the closed cube (horizon: weight positive or +inf, open finding diffuse:horizon-face-weight; nadir end of a whole-disc annulus: weight = normalisation computed from the configuration alone)",
         "Observed executions over 12 (quick) / 64 (thorough) configurations spanning altitude 1..40000 km, limb angle 1e-3..0.999 of the horizon angle, cone 0.1..89 deg, azimuth 1..360 deg: 4096..20000 interior points each judged pointwise (2e-5), weights observed through the real mcintegral, region edges, and quadrature convergence. Unbiasedness is a statement about a whole measure; what is observed is the integrand identity and region at sampled points plus convergence of one quadrature family.",
         "Trusted: numpy, scipy.integrate.quad, scipy.stats.qmc. Earth radius = astropy R_earth. A defect confined to a set the workload never samples is invisible.",
         "5 (C01)",
     ),
     "C02": (
         "exploration",
-        "reference-model monitor with explicit 3-D vectors on every thrown event of the closed unit cube; closed-form inverse-CDF residual in 50-digit decimal; position oracle along kept trajectories incl. after a second throw on the same object; history monitor (same-size throw on a used object equals the fresh object's, every array, bit for bit)",
+        "reference-model monitor with explicit 3-D vectors on every thrown event of the closed unit cube; closed-form inverse-CDF residual in 50-digit decimal; position oracle along kept trajectories incl. after a second throw on the same object; history monitor (same-size throw on a used object equals the fresh object's, every array, bit for bit); special points where a sine or cosine of the construction is exactly +-1 (pole, vertical trajectory, nadir) +-3 ulps; annuli reaching the sub-detector point for altitudes 1..200 km",
         "Observed executions of RegionGeom.throw on a closed-cube boundary catalogue (all face/edge/vertex combinations, denormals, 1-2^-53, u4 ladders) plus 4e4..1.5e5 interior points for 12..160 detector positions incl. poles and the date line; every event judged for range, inverse-CDF image, ground spot, emergence angle and keep mask; positions along trajectories at 5 distances.",
         "Trusted: numpy, python decimal. Inverse-CDF tolerance 1e-10 of the CDF range plus 32 ulps of l (the property gives no figure; the trigonometric solver carries tens of ulps). Altitude along a trajectory is observable only through the ground offset.",
         "5 (C02)",
     ),
     "C03": (
         "exploration",
-        "independent re-evaluation of the documented estimator (math.fsum loops, own derivation of the sampling normalisation) from the event columns; metamorphic monitors (permutation, threshold ladder, bound, call history, second throw); both channels evaluated on the same arrays with the oracle reading pristine copies and an inputs-unchanged monitor; single-survivor cases; monitored full compute() runs recomputing header keywords and per-event columns from the final table",
+        "independent re-evaluation of the documented estimator (math.fsum loops, own derivation of the sampling normalisation) from the event columns; metamorphic monitors (permutation, threshold ladder, bound, call history, second throw); both channels evaluated on the same arrays with the oracle reading pristine copies and an inputs-unchanged monitor; single-survivor cases; monitored full compute() runs recomputing header keywords and per-event columns from the final table; the horizon face u4 = 0 (open finding diffuse:horizon-face-weight, fixed witnesses)",
         "Direct: the real mcintegral of both geometry classes on generated arrays incl. trigger == threshold, cosines on the cone edge, decay exactly at / beyond the path length, both methods, dark-sky cut on/off (1e5 events per run). Full runs: 5 (quick) / 13 (thorough) monitored simulations in both modes and channels incl. the 1/E spectrum.",
         "Trusted: numpy; the dark-sky mask itself is taken from the real sun_moon_cut (C13 decides its correctness). Sums compared at 1e-9 relative plus a stated conditioning allowance; counts exactly.",
         "5 (C03)",
@@ -95,7 +95,7 @@ CHECKS = {
     ),
     "C08": (
         "exploration",
-        "probes on CphotAng.__call__/run recording what EAS.__call__ hands to the kernel and gets back; recomputation of PEs and the effective angle; two-run inverse-square relation with independent straight-line distances (detectors from 5 km to 36000 km, incl. detectors below some of the decays); call history on one EAS object",
+        "probes on CphotAng.__call__/run recording what EAS.__call__ hands to the kernel and gets back; recomputation of PEs and the effective angle; two-run inverse-square relation with independent straight-line distances (detectors from 5 km to 36000 km, incl. detectors below some of the decays); call history on one EAS object; configuration edited between runs; integer emergence-angle arrays against the same numbers as doubles",
         "Observed executions of the real EAS.__call__ for 3..5 detector altitudes x 3 optical settings with hostile decay altitudes (-inf, -5e-324, 0, 20, 20+ulp, +inf ...), thresholds giving PE/threshold exactly 2 and one ulp either side, and 150..1500 two-detector kernel runs.",
         "Trusted: numpy. Squared-ratio tolerance 1e-3 (float32 viewing angle); for detectors below 33 km plus the stated float32 conditioning eps32 (R+z)/d of a short shower-detector distance. Synchronous scheduler (schedules are C10's subject).",
         "5 (C08)",
@@ -109,14 +109,14 @@ CHECKS = {
     ),
     "C04": (
         "exploration",
-        "reference-model monitor on the real sampler: forward CDF residual and own inversion from an independent explicit-neighbour table model, RNG spy/stub for explicit-vs-internal equivalence, rejection and monotonicity monitors; the pipeline order (exit probability then energy on the same arrays, Taus.__call__) against the stand-alone call; diagnostic plots as observers",
+        "reference-model monitor on the real sampler: forward CDF residual and own inversion from an independent explicit-neighbour table model, RNG spy/stub for explicit-vs-internal equivalence, rejection (out-of-table energy at every angle, every batch position, single events, at Taus.tau_energy and at the sampler boundary) and monotonicity monitors; input-dtype monitor (integer / float32 / float16 arrays, lists); the pipeline order (exit probability then energy on the same arrays, Taus.__call__) against the stand-alone call; diagnostic plots as observers",
         "Observed executions of Taus.tau_energy and grid_cdf_sampler on ~1e6 (logE, beta, u) per run over all three shipped table versions: batches of size 1..20000 (around the 8192 iterator buffer) in every mix of in-table / below-min / above-max angles, nodes, cell centres and edges, energies scattered / one tabulated value / blocks of constant values (8192-aligned and not) / sorted, u over the whole of [0, 1-2^-53] incl. 0 and exact node values; every event is judged against F(z)=u (1e-12). Held-on-observed over a continuous input space.",
         "Trusted: h5py's reading of the shipped tables, numpy. At the two ends of a CDF row the inverse is the whole end plateau. 'Negligible' is read as 0 < z <= 1e-5.",
         "5 (C04)",
     ),
     "C05": (
         "exploration",
-        "reference-model monitor (own log-bilinear interpolation with explicit neighbours), exhaustive node enumeration, batch-layout monitor (one off-node energy, one tabulated energy, blocks, sorted, single events), call-history monitor comparing a long-lived object with fresh objects and digesting its table after every call",
+        "reference-model monitor (own log-bilinear interpolation with explicit neighbours), exhaustive node enumeration, batch-layout monitor (one off-node energy, one tabulated energy, blocks, sorted, single events), call-history monitor comparing a long-lived object with fresh objects and digesting its table after every call; rejection of out-of-table energies at every angle incl. above the tabulated maximum and for single events; input-dtype monitor (integer / float32 arrays)",
         "All 25x51 nodes of all three exit-probability tables are enumerated; 5e4..1e6 random/edge points per table are compared with the independent model (1e-12) and the surrounding-node bounds; clamps, rejection of out-of-table energies, and a scripted history (random batches plus few-key mono-energetic A,B,A,... sequences) on one object versus fresh objects, bit for bit.",
         "Trusted: h5py, numpy log10/pow. The above-maximum value is only required to be one constant within 0.5 % of 1.19e-7 (the property names it to three digits).",
         "5 (C05)",
@@ -144,9 +144,9 @@ CHECKS = {
     ),
     "C19": (
         "exploration",
-        "runtime monitors on the real functions: round-trip / monotonicity / endpoint oracles, icontract post-conditions, independent per-layer reference, bit comparison of the two copies, float32 / int64 pressures against the same numbers as doubles",
+        "runtime monitors on the real functions: round-trip / monotonicity / endpoint oracles, icontract post-conditions, independent per-layer reference, bit comparison of the two copies, float32 / int64 pressures and int64 / float32 / uint8 altitudes (arrays and numpy scalars) against the same numbers as doubles",
         "Observed executions of both shipped copies on 10^5..10^6 altitudes and pressures, including every double within 64 ulps of each of the seven layer boundaries (enumerated), scalar/0-d/2-d call forms and the endpoints; every stated bound (1e-6 km, 1e-6 relative, 3e-7 steps) is asserted on each value. Held-on-observed, not a proof: the input space is all doubles in a range.",
-        "Trusted: numpy/libm elementary functions; the independent reference uses the published 1976 layer constants. Integer-typed inputs are observed but not judged.",
+        "Trusted: numpy/libm elementary functions; the independent reference uses the published 1976 layer constants. Integer and single-precision inputs are judged against the double-precision answer of the converted values.",
         "5 (C19)",
     ),
 }
